@@ -443,6 +443,8 @@ class Gen:
             return [self.word() for _ in range(r.randint(1, 3))]
 
         rows = [[cell() for _ in range(n)] for _ in range(r.randint(1, 4) if self.scale == 1 else r.choice([r.randint(1, 4), r.randint(10, 12 * self.scale)]))]
+        # (stock marko does not read a table whose header cell begins with dashes, '| --> x |': that would test the reader)
+        rows = [[(["x" + c[0]] + c[1:]) if c and c[0].startswith("-") else c for c in row] for row in rows]
         if not any(rows[0]):
             rows[0][0] = ["H"]
         rows[0] = [c or ["h"] for c in rows[0]]
